@@ -805,6 +805,13 @@ func (es *ES) execSwitch(init ast.Stmt, body *ast.BlockStmt, st *esState, whole 
 		}
 		// a clause that only returns an error is an error path
 		br := st.clone()
+		// `switch tag { case "lit": ... }` decides tag=="lit" on that path, like the if-form
+		if sw, ok := whole.(*ast.SwitchStmt); ok && sw.Tag != nil && len(cc.List) == 1 {
+			if br.decided == nil {
+				br.decided = map[string]bool{}
+			}
+			br.decided[exprShort(sw.Tag)+"=="+exprShort(cc.List[0])] = true
+		}
 		// bind the type-switch variable if any: not tracked
 		res := es.execBlock(cc.Body, br)
 		for _, r := range res {
